@@ -277,6 +277,8 @@ pub struct World {
     pub m: Mirror,
     pub items: Vec<String>,
     pub dead: bool,
+    pub rtarget: Vec<Option<usize>>, // rwa: recovery targets set so far
+    pub genesis: String, // observation taken before the first call
     pub appr: Vec<Vec<Option<u32>>>, // live_until of the last successful approve per (owner, spender)
 }
 
@@ -294,9 +296,14 @@ fn guarded<T>(f: impl FnOnce() -> T) -> Option<T> {
     QUIET.with(|q| q.set(q.get() - 1));
     r
 }
+/// the observation printed when nothing could be observed: malformed on purpose (no balances, negative
+/// supply), so that diff and monitors reject the trace at that point
+fn sentinel_obs(now: u32) -> String {
+    format!("{{| o_now := {}; o_supply := {}; o_bal := []; o_allow := []; o_extra := [] |}}", now, z(SENTINEL))
+}
 fn install_panic_hook() {
     let default = std::panic::take_hook();
-    std::panic::set_hook(Box::new(move |info| { if QUIET.with(|q| q.get()) == 0 { default(info); } }));
+    std::panic::set_hook(Box::new(move |info| { if QUIET.with(|q| q.get()) == 0 || std::env::var("VERIF_LOUD").is_ok() { default(info); } }));
 }
 
 impl World {
@@ -342,11 +349,12 @@ impl World {
         let acct_sc = xdr::ScAddress::Account(xdr::AccountId(xdr::PublicKey::PublicKeyTypeEd25519(xdr::Uint256([7u8; 32]))));
         let acct = Address::try_from_val(&e, &xdr::ScVal::Address(acct_sc)).unwrap();
         addrs.push(acct);
+        if let Some(a) = &asset { addrs.push(a.clone()); }   // vault: the asset token's address can hold shares too
         let sc = addrs.iter().map(|a| xdr::ScAddress::from(a)).collect();
         let nall0 = addrs.len();
-        let mut w = World { e, flav, tok, asset, idv, addrs, sc, nu, start, min_temp, max_ttl, offset, m: Mirror::default(), items: vec![], dead: false, appr: vec![vec![None; nall0]; nall0] };
+        let mut w = World { e, flav, tok, asset, idv, addrs, sc, nu, start, min_temp, max_ttl, offset, m: Mirror::default(), items: vec![], dead: false, genesis: String::new(), rtarget: vec![None; nall0], appr: vec![vec![None; nall0]; nall0] };
         w.m.now = start;
-        let _ = w.observe();
+        w.genesis = guarded(|| w.observe()).unwrap_or_else(|| sentinel_obs(start));
         w
     }
 
@@ -445,9 +453,19 @@ impl World {
         let now = self.now();
         let tok = self.tok.clone();
         let addrs = self.addrs.clone();
-        let (supply, bal, allow) = e.as_contract(&tok, || {
-            let supply = guarded(|| Base::total_supply(&e)).unwrap_or(SENTINEL);
-            let bal: Vec<i128> = addrs.iter().map(|a| guarded(|| Base::balance(&e, a)).unwrap_or(SENTINEL)).collect();
+        // total_supply(), balance(), allowance(): through the contract's public entry points (they dispatch
+        // through the flavour's ContractType overrides); a trap becomes the sentinel
+        let ep = |f: &str, args: SVec<Val>| -> i128 {
+            match e.try_invoke_contract::<Val, soroban_sdk::Error>(&tok, &Symbol::new(&e, f), args) {
+                Ok(Ok(v)) => i128_of(&e, &v).unwrap_or(SENTINEL),
+                _ => SENTINEL,
+            }
+        };
+        let supply = ep("total_supply", soroban_sdk::vec![&e]);
+        let bal: Vec<i128> = addrs.iter().map(|a| ep("balance", soroban_sdk::vec![&e, a.to_val()])).collect();
+        let ep_allow: Vec<Vec<i128>> = addrs.iter().map(|o| addrs.iter().map(|s| ep("allowance", soroban_sdk::vec![&e, o.to_val(), s.to_val()])).collect()).collect();
+        // live_until of the allowance and the storage lifetime of its entry: library / storage reads
+        let allow = e.as_contract(&tok, || {
             let mut allow = vec![];
             for o in addrs.iter() {
                 let mut row = vec![];
@@ -462,8 +480,14 @@ impl World {
                 }
                 allow.push(row);
             }
-            (supply, bal, allow)
+            allow
         });
+        // the amount is the public getter's answer (it must agree with allowance_data; if it does not, the
+        // public answer is what is observed and the live_until / entry lifetime stay the library's)
+        let allow: Vec<Vec<(i128, u32, i64)>> = allow.iter().enumerate().map(|(i, row)| row.iter().enumerate().map(|(j, &(am, lu, ttl))| {
+            let pubv = ep_allow[i][j];
+            if pubv == am { (am, lu, ttl) } else { (pubv, lu, ttl) }
+        }).collect()).collect();
         let mut extra: Vec<String> = vec![];
         let mut abal = vec![];
         let mut frozen = vec![];
@@ -530,7 +554,7 @@ impl World {
                 self.dead = true;
                 out.label("harness/execution-panicked");
                 let now = guarded(|| self.e.ledger().sequence()).unwrap_or(0);
-                self.items.push(format!("({}, Fail, [], {{| o_now := {}; o_supply := {}; o_bal := []; o_allow := []; o_extra := [] |}})", text, now, z(SENTINEL)));
+                self.items.push(format!("({}, Fail, [], {})", text, sentinel_obs(now)));
                 false
             }
         }
@@ -545,7 +569,7 @@ impl World {
         let c = match c {
             C::Transfer(au, f, t, m, a) if self.flav == Flav::Votes && f == t && a > 0 && a == self.m.bal[f] => C::Transfer(au, f, t, m, a - 1),
             // a muxed recipient must be the account-type address (the last one of the universe)
-            C::Transfer(au, f, t, Some(_), a) if t != self.addrs.len() - 1 => C::Transfer(au, f, t, None, a),
+            C::Transfer(au, f, t, Some(_), a) if t != self.nu + 1 => C::Transfer(au, f, t, None, a),
             C::TransferFrom(au, s, f, t, a) if self.flav == Flav::Votes && f == t && a > 0 && a == self.m.bal[f] => C::TransferFrom(au, s, f, t, a - 1),
             other => other,
         };
@@ -616,6 +640,7 @@ impl World {
         out.label(&format!("{}/{}", c.kind(), if ok { "ok" } else { "fail" }));
         for cl in &classes { out.label(&format!("cls/{}/{}", cl, if ok { "ok" } else { "fail" })); }
         if ok { if let C::Approve(_, o, s, _, lu) = &c { self.appr[*o][*s] = Some(*lu); } }
+        if ok { if let C::RSetRecovery(o, t) = &c { self.rtarget[*o] = Some(*t); } }
         let outcome = match &res { Some(v) => format!("Ok {}", v), None => "Fail".into() };
         let obs = self.observe();
         self.items.push(format!("({}, {}, {}, {})", call_text, outcome, list(&evs), obs));
@@ -642,6 +667,8 @@ impl World {
             if a > 0 && Some(a) == al.checked_add(1) { v.push(format!("{}/allowance-plus-1", k)); }
             if a > 0 && a < al { v.push(format!("{}/part-of-allowance", k)); }
             if a == 0 { v.push(format!("{}/zero", k)); }
+            if a < 0 { v.push(format!("{}/negative", k)); }
+            if a == 0 && al == 0 { v.push(format!("{}/zero-without-allowance", k)); }
             if s == f { v.push(format!("{}/spender-is-owner", k)); }
             if let Some(lu) = self.appr[f][s] {
                 if (lu as i64) < now { v.push(format!("{}/after-live-until", k)); }
@@ -666,6 +693,8 @@ impl World {
             C::TransferFrom(au, s, f, t, a) => {
                 spend_cls(&mut v, "transfer_from", au, *s, *f, *a);
                 if f == t { v.push("transfer_from/self".into()); }
+                if s == t && s != f { v.push("transfer_from/spender-is-recipient".into()); }
+                if s == f && f == t { v.push("transfer_from/all-three-aliased".into()); }
                 if a > &m.bal[*f] && *a <= m.allow[*f][*s].0 { v.push("transfer_from/allowance-exceeds-balance".into()); }
             }
             C::BurnFrom(au, s, f, a) => spend_cls(&mut v, "burn_from", au, *s, *f, *a),
@@ -738,8 +767,8 @@ impl World {
         let ncalls = self.items.len();
         let univ: Vec<String> = (0..self.addrs.len()).map(na).collect();
         let term = format!(
-            "{{| t_cfg := {{| c_host := {{| min_temp_ttl := {}; max_ttl := {} |}}; c_flav := {}; c_self := {}; c_offset := {} |}}; t_univ := {}; t_start := {}; t_items := {} |}}",
-            self.min_temp, self.max_ttl, self.flav.coq(), na(self.nu), self.offset, list(&univ), self.start, list(&self.items));
+            "{{| t_cfg := {{| c_host := {{| min_temp_ttl := {}; max_ttl := {} |}}; c_flav := {}; c_self := {}; c_offset := {} |}}; t_univ := {}; t_start := {}; t_init := {}; t_items := {} |}}",
+            self.min_temp, self.max_ttl, self.flav.coq(), na(self.nu), self.offset, list(&univ), self.start, self.genesis, list(&self.items));
         out.trace(&format!("{}:{}", self.flav.tag(), desc), term, ncalls);
     }
 }
@@ -827,7 +856,7 @@ pub fn gen_call(w: &World, rng: &mut Rng, lat: &[i128], mode: Mode) -> C {
     let nall = w.addrs.len();
     let m = &w.m;
     // any address of the universe, mostly users
-    let any = |rng: &mut Rng| -> usize { if rng.chance(1, 9) { nu + rng.below(2) as usize } else { rng.below(nu as u64) as usize } };
+    let any = |rng: &mut Rng| -> usize { if rng.chance(1, 9) { nu + rng.below((nall - nu) as u64) as usize } else { rng.below(nu as u64) as usize } };
     let user = |rng: &mut Rng| -> usize { rng.below(nu as u64) as usize };
     let holder = |rng: &mut Rng| -> usize {
         let hs: Vec<usize> = (0..nu).filter(|i| m.bal[*i] > 0).collect();
@@ -861,17 +890,18 @@ pub fn gen_call(w: &World, rng: &mut Rng, lat: &[i128], mode: Mode) -> C {
                 };
             }
             Flav::Rwa => {
-                let a = holder(rng);
+                let a = if rng.chance(1, 6) { any(rng) } else { holder(rng) };   // also the token contract / account address
+                let known: Vec<(usize, usize)> = w.rtarget.iter().enumerate().filter_map(|(o, t)| t.map(|t| (o, t))).collect();
                 return match rng.below(10) {
                     0 => C::RForced(a, any(rng), pick_amt(rng, lat, &[m.bal[a], m.bal[a].saturating_sub(m.frozen[a])])),
                     1 => C::RBurn(a, pick_amt(rng, lat, &[m.bal[a], m.bal[a].saturating_sub(m.frozen[a])])),
-                    2 => C::RRecover(a, user(rng)),
+                    2 => if !known.is_empty() && rng.chance(3, 4) { let (o, t) = *rng.pick(&known); C::RRecover(o, t) } else { C::RRecover(a, if rng.chance(1, 5) { a } else { user(rng) }) },
                     3 | 4 => C::RFreeze(a, pick_amt(rng, lat, &[m.bal[a].saturating_sub(m.frozen[a])])),
                     5 => C::RUnfreeze(a, pick_amt(rng, lat, &[m.frozen[a]])),
                     6 => C::RSetFrozen(any(rng), rng.chance(1, 2)),
                     7 => C::RPause(rng.chance(1, 2)),
                     8 => { let o = holder(rng); let nw = user(rng); C::RSetRecovery(o, nw) }
-                    _ => { let o = holder(rng); let nw = user(rng); C::RSetRecovery(o, nw) }
+                    _ => { let o = holder(rng); let nw = if rng.chance(1, 6) { o } else { user(rng) }; C::RSetRecovery(o, nw) }
                 };
             }
             Flav::Base => {}
@@ -888,7 +918,7 @@ pub fn gen_call(w: &World, rng: &mut Rng, lat: &[i128], mode: Mode) -> C {
         14..=33 => {
             let f = holder(rng);
             let t = if rng.chance(1, 8) { f } else { any(rng) };
-            let mux = if t == nall - 1 && rng.chance(3, 4) { Some(rng.below(1 << 40)) } else { None };
+            let mux = if t == nu + 1 && rng.chance(3, 4) { Some(rng.below(1 << 40)) } else { None };
             C::Transfer(pick_auths(rng, nu, f, mode), f, t, mux, pick_amt(rng, lat, &[m.bal[f]]))
         }
         34..=51 => {
@@ -951,7 +981,16 @@ pub fn random_trace(out: &mut Out, rng: &mut Rng, lat: &[i128], flav: Flav, mode
     for c in setup_calls(&w, rng) { w.step(out, c); }
     for _ in 0..len {
         if w.dead { break; }
-        let c = match guarded(|| gen_call(&w, rng, lat, mode)) { Some(c) => c, None => { out.label("harness/generator-panicked"); break; } };
+        let c = match guarded(|| gen_call(&w, rng, lat, mode)) {
+            Some(c) => c,
+            None => {
+                out.label("harness/generator-panicked");
+                let now = w.m.now;
+                w.items.push(format!("(QSupply, Fail, [], {})", sentinel_obs(now)));   // rejected by diff and monitors
+                w.dead = true;
+                break;
+            }
+        };
         w.step(out, c);
     }
     w.finish(out, desc);
@@ -1150,6 +1189,33 @@ fn scenario_persistence(out: &mut Out, flav: Flav, min_temp: u32, min_pers: u32,
     w.finish(out, &format!("persistence-across-gaps(min_temp={},min_pers={},max_ttl={}{})", min_temp, min_pers, max_ttl, if descending { ",descending" } else { "" }));
 }
 
+/// ledger sequence at the top of the range the host supports: the host raises an unrecoverable
+/// InternalError ("misconfiguration of the network") in every TTL operation once
+/// sequence + max_entry_ttl - 1 overflows u32, so the last usable ledgers are those just below
+/// u32::MAX - max_entry_ttl; live_until values then reach up to (almost) u32::MAX.
+fn scenario_ledger_near_u32_max(out: &mut Out, flav: Flav) {
+    let max_ttl = 6_312_000u32;
+    let start = u32::MAX - max_ttl - 400;
+    let mut w = World::new_cfg(flav, 3, start, 1, 4096, max_ttl, 0);
+    w.step(out, C::Mint(0, 1000));
+    w.step(out, C::Approve(vec![0], 0, 1, 100, u32::MAX));                // beyond max_live_until_ledger
+    w.step(out, C::Approve(vec![0], 0, 1, 100, start + max_ttl));         // max + 1
+    w.step(out, C::Approve(vec![0], 0, 1, 100, start + max_ttl - 1));     // exactly max = u32::MAX - 401
+    w.step(out, C::Approve(vec![0], 0, 2, 50, start + 200));
+    w.step(out, C::TransferFrom(vec![1], 1, 0, 2, 10));
+    w.step(out, C::Advance(200));                                          // last ledger of 0 -> 2
+    w.step(out, C::TransferFrom(vec![2], 2, 0, 1, 10));
+    w.step(out, C::Advance(1));
+    w.step(out, C::TransferFrom(vec![2], 2, 0, 1, 10));
+    w.step(out, C::TransferFrom(vec![1], 1, 0, 2, 10));
+    w.step(out, C::Advance(100));                                          // now + max_ttl - 1 = u32::MAX - 100
+    w.step(out, C::QAllowance(0, 1));
+    w.step(out, C::Approve(vec![0], 0, 2, 7, u32::MAX - 100));
+    w.step(out, C::Approve(vec![0], 0, 2, 7, u32::MAX - 99));
+    w.step(out, C::Transfer(vec![0], 0, 1, None, 1));
+    w.finish(out, "ledger-at-top-of-supported-range");
+}
+
 /// who may spend whose allowance: reverse allowances, wrong signers, revocation, last ledger
 fn scenario_roles(out: &mut Out, flav: Flav) {
     let mut w = World::new(flav, 3, 700, 1, 5000, 0);
@@ -1179,6 +1245,18 @@ fn scenario_roles(out: &mut Out, flav: Flav) {
         w.step(out, C::VWithdraw(vec![1], 5, 0, 1, 0));     // owner signs instead of the operator
         w.step(out, C::VWithdraw(vec![0], 5, 0, 1, 0));
     }
+    let b1 = w.m.bal[1];
+    w.step(out, C::Transfer(vec![1], 1, 2, None, b1 + 1));   // one more than the balance
+    if flav.has_burn() { w.step(out, C::Burn(vec![1], 1, -1)); }
+    w.step(out, C::Approve(vec![1], 1, 0, -1, 720));         // negative approval
+    w.step(out, C::TransferFrom(vec![2], 2, 2, 0, 1));       // spender = owner without a self-allowance
+    w.step(out, C::Approve(vec![1], 1, 2, b1 + 500, 720));   // allowance larger than the balance
+    w.step(out, C::TransferFrom(vec![2], 2, 1, 0, b1 + 1));
+    w.step(out, C::Approve(vec![1], 1, 2, 0, 720));
+    w.step(out, C::TransferFrom(vec![0], 0, 1, 2, -1));     // negative spend
+    w.step(out, C::TransferFrom(vec![2], 2, 1, 0, 0));      // zero spend without any allowance
+    w.step(out, C::TransferFrom(vec![0], 0, 1, 0, 3));      // spender is the recipient
+    if flav.has_burn() { w.step(out, C::BurnFrom(vec![0], 0, 1, -1)); w.step(out, C::BurnFrom(vec![2], 2, 1, 0)); }
     // approve signed by the spender / nobody / both
     w.step(out, C::Approve(vec![0], 1, 0, 500, 720));
     w.step(out, C::Approve(vec![], 1, 0, 500, 720));
@@ -1210,6 +1288,32 @@ fn scenario_roles(out: &mut Out, flav: Flav) {
     w.step(out, C::Approve(vec![1], 1, 0, i128::MAX - 1, now + 50));
     w.step(out, C::TransferFrom(vec![0], 0, 1, 2, 5));
     w.finish(out, "roles-and-signers");
+}
+
+/// vault shares at the i128 boundary: share supply within 6000 of i128::MAX (decimals offset 3), then a
+/// deposit whose shares overflow the supply (phantom-overflow path of mul_div included), exact fill, drain
+fn scenario_vault_overflow(out: &mut Out) {
+    let mut w = World::new(Flav::Vault, 3, 10, 1, 5000, 3);
+    let a0 = (i128::MAX - 5000) / 1000;
+    w.step(out, C::AssetMint(0, a0));
+    w.step(out, C::AssetMint(1, 1_000_000));
+    let ok = w.step(out, C::VDeposit(vec![0], vec![0], a0, 0, 0, 0));
+    if ok && w.m.supply > (1i128 << 126) { out.label("cls/vault_in/share-supply-near-max/ok"); }
+    let ok = w.step(out, C::VDeposit(vec![1], vec![1], 10, 1, 1, 1));          // shares ~ 10_000 > room
+    if !ok { out.label("cls/vault_in/share-supply-overflow/fail"); }
+    w.step(out, C::VMint(vec![1], vec![1], 6_000, 1, 1, 1));
+    w.step(out, C::VMint(vec![1], vec![1], 100, 1, 1, 1));
+    w.step(out, C::VDeposit(vec![1], vec![1], 0, 1, 1, 1));
+    w.step(out, C::Transfer(vec![0], 0, 1, None, i128::MAX / 2));
+    w.step(out, C::Transfer(vec![1], 1, 1, None, i128::MAX / 2));
+    w.step(out, C::Approve(vec![0], 0, 1, i128::MAX, 100));
+    let b0 = w.m.bal[0];
+    w.step(out, C::VRedeem(vec![1], b0, 1, 0, 1));
+    w.step(out, C::VRedeem(vec![1], 1, 1, 0, 1));
+    let b1 = w.m.bal[1];
+    w.step(out, C::VRedeem(vec![1], b1, 1, 1, 1));
+    w.step(out, C::QSupply);
+    w.finish(out, "vault-share-supply-at-i128-boundary");
 }
 
 fn scenario_flavour(out: &mut Out, flav: Flav) {
@@ -1328,6 +1432,19 @@ fn scenario_flavour(out: &mut Out, flav: Flav) {
             w.step(out, C::TransferFrom(vec![0], 0, 2, 3, 7));
             w.step(out, C::RForced(2, 0, -1));
             w.step(out, C::RBurn(2, -1));
+            // balances held by the token contract itself and by the account-type address
+            w.step(out, C::Mint(4, 40));
+            w.step(out, C::Mint(5, 50));
+            w.step(out, C::RForced(4, 0, 15));
+            w.step(out, C::RBurn(5, 20));
+            w.step(out, C::RForced(5, 4, 5));
+            // self recovery (recovery target = the old account itself) and a second real recovery
+            w.step(out, C::RSetRecovery(0, 0));
+            w.step(out, C::RRecover(0, 0));
+            w.step(out, C::RSetRecovery(0, 2));
+            w.step(out, C::RFreeze(0, 3));
+            w.step(out, C::RRecover(0, 2));
+            w.step(out, C::RRecover(0, 2));
             w.finish(out, "rwa-supervisory");
         }
         Flav::Base => {}
@@ -1369,7 +1486,12 @@ fn exhaustive_base(out: &mut Out, depth: usize) {
 /// last line of defence: a panic in scenario / generator code itself loses that trace, not the run
 fn safely(out: &mut Out, f: impl FnOnce(&mut Out)) {
     let lost = { let o = &mut *out; guarded(move || f(o)).is_none() };
-    if lost { out.label("harness/trace-lost-to-panic"); }
+    if lost {
+        // a lost trace must not go unnoticed: emit a malformed trace that diff and monitors reject
+        out.label("harness/trace-lost-to-panic");
+        let poison = format!("{{| t_cfg := {{| c_host := {{| min_temp_ttl := 1; max_ttl := 1 |}}; c_flav := FBase; c_self := 0%N; c_offset := 0 |}}; t_univ := []; t_start := 0; t_init := {}; t_items := [] |}}", sentinel_obs(0));
+        out.trace("LOST: a scenario / generator panicked in harness code", poison, 1);
+    }
 }
 
 pub fn run(pid: &str) {
@@ -1387,10 +1509,11 @@ pub fn run(pid: &str) {
 
     // 1. directed scenarios
     for &f in &flavs {
-        if f != Flav::Vault { safely(&mut out, |out| scenario_overflow(out, f)); }
+        if f != Flav::Vault { safely(&mut out, |out| scenario_overflow(out, f)); } else { safely(&mut out, |out| scenario_vault_overflow(out)); }
         safely(&mut out, |out| scenario_flavour(out, f));
     }
     for &f in &[Flav::Base, Flav::Allow, Flav::Block, Flav::Vault, Flav::Rwa, Flav::Votes] { safely(&mut out, |out| scenario_roles(out, f)); }
+    for &f in &[Flav::Base, Flav::Rwa] { safely(&mut out, |out| scenario_ledger_near_u32_max(out, f)); }
     for &f in &[Flav::Base, Flav::Allow, Flav::Block, Flav::Votes, Flav::Vault, Flav::Rwa] {
         safely(&mut out, |out| scenario_persistence(out, f, 16, 4096, 6_312_000, false));           // SDK test defaults
         safely(&mut out, |out| scenario_persistence(out, f, 17_280, 2_073_600, 3_110_400, true));   // network-like settings
@@ -1400,15 +1523,16 @@ pub fn run(pid: &str) {
         if pid == "C02" || thorough { safely(&mut out, |out| scenario_expiry(out, f, 16, 6_312_000)); }
     }
     if pid == "C02" || thorough {
-        let fl: Vec<Flav> = if thorough { vec![Flav::Base, Flav::Allow, Flav::Block, Flav::Vault, Flav::Votes, Flav::Rwa] } else { vec![Flav::Base, Flav::Vault] };
+        let fl: Vec<Flav> = if thorough || pid == "C02" { vec![Flav::Base, Flav::Allow, Flav::Block, Flav::Vault, Flav::Votes, Flav::Rwa] } else { vec![Flav::Base, Flav::Vault] };
         for &f in &fl { for pos in [-1i64, 0, 1] { safely(&mut out, |out| scenario_auth_subsets(out, f, if thorough { 4 } else { 3 }, pos)); } }
     }
     // 2. random adaptive traces
-    let per_flav = if thorough { 120 } else { 22 } * scale;
+    // VERIF_NO_RANDOM=1: directed scenarios only (used to check that the coverage gate does not depend on the random stream)
+    let per_flav = if std::env::var("VERIF_NO_RANDOM").is_ok() { 0 } else { (if thorough { 120 } else { 22 }) * scale };
     let len = if thorough { 60 } else { 30 };
     for &f in &flavs {
         let weight = match (pid, f) { ("C02", Flav::Votes) | ("C02", Flav::Rwa) => 1, ("C02", _) => 2, _ => 2 };
-        for i in 0..(per_flav * weight / 2).max(1) {
+        for i in 0..(per_flav * weight / 2).max(if per_flav == 0 { 0 } else { 1 }) {
             let nu = if thorough && i % 3 == 0 { 6 } else { 4 };
             let mut r = rng.fork(i as u64);
             safely(&mut out, |out| random_trace(out, &mut r, &lat, f, mode, len, nu, "random"));
